@@ -192,6 +192,18 @@ Theorem C09_tdrk_state_time_refuted : tdrk_carry_rejected = true ->
 Proof. exact tdrk_state_time_refuted. Qed.
 Print Assumptions C09_tdrk_state_time_refuted.
 
+(* the time offset t0 handed to the stage Hamiltonians mpo_t(c_i*dt + t0) of a time-dependent callable is the time covered by
+   the sub-steps accepted so far: the k-th trial of the general-RK controller starts at the sum of the accepted steps before it.
+   (sample_times cs tr lists c_i * dt + t0 for every trial; the harness compares it with the times the callable is called with.) *)
+Theorem C09_tdrk_offset_is_accepted_time : forall (est : estimate) fuel target guess tr g',
+  tdrk_run fuel est target guess = Some (tr, g') ->
+  forall tr1 e tr2, tr = tr1 ++ e :: tr2 -> e_pos e == acc_sum tr1.
+Proof.
+  exact (fun est fuel target guess tr g' Hr tr1 e tr2 E =>
+    Qeq_trans _ _ _ (tdrk_pos_is_accepted_time est target fuel 0%nat guess 0 tr g' Hr tr1 e tr2 E) (Qplus_0_l (acc_sum tr1))).
+Qed.
+Print Assumptions C09_tdrk_offset_is_accepted_time.
+
 (* non-vacuity: a run with one rejection and four accepted steps (target 1, guess 1) *)
 Example C09_controller_runs :
   exists tr g', tdvp_run 10 est_reject_once 1 1 = Some (tr, g') /\ length tr = 5%nat /\ same_dir 1 1.
